@@ -1,4 +1,131 @@
-import MgpuModel.C16
+import MgpuProofs.C16Mem
+/-! # C16 — property theorems (address translation forwards every access faithfully, exactly once)
+
+All statements are about `run c ops`: the tick-exact model of the address translator started from
+the empty state and driven by an *arbitrary* sequence of environment moves and ticks (`Op`): the
+requester delivers accesses, the translation service and the memory deliver any replies in any
+order with any content, each outgoing buffer is drained or left full at will, flush/restart
+commands arrive at any point; `c` is any configuration (per-cycle width = buffer sizes, page size).
+Helper lemmas are in `MgpuProofs/C16*.lean`. -/
 namespace C16
-theorem wip : True := trivial
+
+/-- **Forwarded at most once, faithfully, under its own translation.** For every history:
+no access id is forwarded twice, no bottom-request id is used twice, and every forwarded request
+`l` stems from an access that was received, carries that access's size/data/mask unchanged, and its
+physical address is `page.PAddr + (vaddr mod 2^log2PageSize)` for a page that the translation
+service returned in reply to a lookup sent for *that access's own PID and virtual page*.
+Whatever sits in the bottom port's outgoing buffer is such a logged request. -/
+theorem at_forward_once (c : Cfg) (ops : List Op) :
+    let s := run c ops
+    (s.forwarded.map (·.top.id)).Nodup ∧ (s.forwarded.map (·.breq.bid)).Nodup ∧
+    (∀ l ∈ s.forwarded,
+      (l.top, l.epoch) ∈ s.received ∧ l.breq.pl = l.top.pl ∧
+      ∃ q ∈ s.asked, q.pid = l.top.pid ∧ q.vpage = pageId c.lg l.top.vaddr ∧
+        ∃ r ∈ s.tdel, r.rspTo = q.tid ∧ l.breq.paddr = r.paddr + l.top.vaddr % 2 ^ c.lg) ∧
+    (∀ b ∈ s.botOut, ∃ l ∈ s.forwarded, l.breq = b) := by
+  intro s
+  have hc := run_cinv c ops
+  have hm := run_minv c ops
+  refine ⟨?_, ?_, hm.fwd, hm.botOut⟩
+  · rw [List.nodup_iff_count]
+    intro i
+    have h1 := hc.a i; have h2 := hc.b i
+    show List.count i (List.map (fun x => x.top.id) (run c ops).forwarded) ≤ 1
+    omega
+  · rw [List.nodup_iff_count]
+    exact hc.d
+
+/-- Corollary: with a truthful translation service (every reply to a lookup `(pid, vpage)` carries
+the page-table entry `pt pid vpage`), every forwarded request goes to
+`pt (its own PID) (its own page) + page offset` — never to another process's page. -/
+theorem at_forward_own_page (c : Cfg) (ops : List Op) (pt : Nat → Nat → Nat)
+    (htruth : ∀ q ∈ (run c ops).asked, ∀ r ∈ (run c ops).tdel, r.rspTo = q.tid → r.paddr = pt q.pid q.vpage) :
+    ∀ l ∈ (run c ops).forwarded,
+      l.breq.paddr = pt l.top.pid (pageId c.lg l.top.vaddr) + l.top.vaddr % 2 ^ c.lg ∧ l.breq.pl = l.top.pl := by
+  intro l hl
+  obtain ⟨_, h2, q, hq, h3, h4, r, hr, h5, h6⟩ := (run_minv c ops).fwd l hl
+  have := htruth q hq r hr h5
+  rw [h6, this, h3, h4]
+  exact ⟨rfl, h2⟩
+
+/-- **Answered at most once, to the original request, with the returned data.** For every history:
+no access is answered twice, no bottom-request id is answered twice; every response sent through
+the top port carries the original request's ID, belongs to an access that was forwarded under the
+bottom id `x.bid`, and carries exactly the data of a memory response delivered for that bottom id.
+Whatever sits in the top port's outgoing buffer is such a logged response. -/
+theorem at_respond_once (c : Cfg) (ops : List Op) :
+    let s := run c ops
+    (s.answered.map (·.top.id)).Nodup ∧
+    (∀ x ∈ s.answered, ∀ y ∈ s.answered, x.bid = y.bid → x.top.id = y.top.id) ∧
+    (∀ x ∈ s.answered,
+      x.rsp.rspTo = x.top.id ∧
+      (∃ l ∈ s.forwarded, l.top = x.top ∧ l.breq.bid = x.bid ∧ l.epoch = x.epoch) ∧
+      ∃ m ∈ s.mdel, m.rspTo = x.bid ∧ m.data = x.rsp.data) ∧
+    (∀ u ∈ s.topOut, ∃ x ∈ s.answered, x.rsp = u) := by
+  intro s
+  have hc := run_cinv c ops
+  have hm := run_minv c ops
+  refine ⟨?_, ?_, fun x hx => (hm.ans x hx).2, hm.topOut⟩
+  · rw [List.nodup_iff_count]
+    intro i
+    have h1 := hc.a i; have h2 := hc.b i; have h3 := hc.c i
+    show List.count i (List.map (fun x => x.top.id) (run c ops).answered) ≤ 1
+    omega
+  · intro x hx y hy hxy
+    obtain ⟨_, _, ⟨lx, hlx, k1, k2, _⟩, _⟩ := hm.ans x hx
+    obtain ⟨_, _, ⟨ly, hly, m1, m2, _⟩, _⟩ := hm.ans y hy
+    have : lx = ly := eq_of_count_le_one (fun l : FwdLog => l.breq.bid) _ hc.d lx hlx ly hly (by
+      show lx.breq.bid = ly.breq.bid
+      omega)
+    rw [← k1, ← m1, this]
+
+/-- **Flush.** `epoch` counts the flushes the translator has performed. Every access is forwarded
+and answered only in the epoch in which it was accepted: nothing accepted before a flush is
+forwarded or answered after it (late translation replies and memory responses are dropped). -/
+theorem at_flush (c : Cfg) (ops : List Op) :
+    let s := run c ops
+    (∀ l ∈ s.forwarded, ∀ r ∈ s.received, r.1.id = l.top.id → r.2 = l.epoch) ∧
+    (∀ x ∈ s.answered, ∀ r ∈ s.received, r.1.id = x.top.id → r.2 = x.epoch) ∧
+    (∀ t ∈ s.txs, ∀ a ∈ t.reqs, (a, s.epoch) ∈ s.received) ∧
+    (∀ f ∈ s.infl, (f.top, s.epoch) ∈ s.received) := by
+  intro s
+  have hc := run_cinv c ops
+  have hm := run_minv c ops
+  have huniq : ∀ x ∈ s.received, ∀ y ∈ s.received, x.1.id = y.1.id → x = y :=
+    eq_of_count_le_one (fun x : Acc × Nat => x.1.id) _ (by
+      intro i; have := hc.a i
+      show List.count i (List.map (fun x => x.1.id) (run c ops).received) ≤ 1
+      omega)
+  refine ⟨?_, ?_, fun t ht a ha => ((hm.tx t ht).2.2.2.1 a ha).2.2, fun f hf => (hm.infl f hf).1⟩
+  · intro l hl r hr he
+    have := huniq r hr _ (hm.fwd l hl).1 he
+    rw [this]
+  · intro x hx r hr he
+    have := huniq r hr _ (hm.ans x hx).1 he
+    rw [this]
+
+/-- The statements above are not vacuous: a concrete history (two PIDs on the same virtual page, a
+reply that arrives while the bottom port is full, a flush in the middle) in which accesses are
+received, forwarded to *different* physical pages, answered, and one is discarded by the flush. -/
+def demoOps : List Op :=
+  [.access 1 0x1004 ⟨false, 4, [], []⟩, .tick, .drainTr, .access 2 0x1008 ⟨false, 4, [], []⟩, .tick,
+   .drainTr, .trsp ⟨0, 0x11000⟩, .tick, .trsp ⟨1, 0x12000⟩, .tick, .drainBot, .tick, .tick,
+   .brsp ⟨0, some [1, 2, 3, 4]⟩, .tick, .access 1 0x2000 ⟨true, 2, [7, 8], [true, false]⟩, .tick,
+   .ctl .flush, .tick, .drainBot, .brsp ⟨1, some [5, 6, 7, 8]⟩, .tick]
+
+example :
+    let s := run ⟨1, 12⟩ demoOps
+    s.received.map (·.1.id) = [2, 1, 0] ∧
+    s.forwarded.map (fun l => (l.top.id, l.breq.paddr, l.epoch)) = [(1, 0x12008, 0), (0, 0x11004, 0)] ∧
+    s.answered.map (fun x => (x.top.id, x.rsp.data, x.epoch)) = [(0, some [1, 2, 3, 4], 0)] ∧
+    s.epoch = 1 ∧ s.flushing = true ∧ s.txs.length = 0 ∧ s.botIn.length = 1 := by
+  decide
+
+/-- what a completed flush does: all pending translations and in-flight records are discarded and
+the epoch advances, so by `at_flush` nothing accepted earlier can be forwarded or answered later -/
+theorem at_flush_step (s : St) (rest : List Ctl) (h1 : s.ctlIn = .flush :: rest) (h2 : s.ctlOut < 1) :
+    (handleCtrl s).1.txs = [] ∧ (handleCtrl s).1.infl = [] ∧ (handleCtrl s).1.flushing = true ∧
+    (handleCtrl s).1.epoch = s.epoch + 1 := by
+  simp [handleCtrl, h1, h2]
+
 end C16
